@@ -299,8 +299,14 @@ class Run:
                         BM.load_backend(nm)
                     for nm in TA_VALID:
                         TM.load_backend(nm)
-                E["tl"].set_backend(self.cfg["D0"]["be"])
-                E["tlt"].set_backend(self.cfg["D0"]["ta"])
+                for mgr, mod in (("be", E["tl"]), ("ta", E["tlt"])):
+                    try:
+                        mod.set_backend(self.cfg["D0"][mgr])
+                    except Exception as e:
+                        # a *valid* name rejected at the start of a run: the library kept state from an earlier
+                        # run of this process (chunks start from a clean child, so this replays as a prefix)
+                        self.direct.append((0, f"{mgr}.select-valid-raised",
+                                            f"set_backend({self.cfg['D0'][mgr]!r}) at the start of the run raised {type(e).__name__}: {e}"))
             except BaseException as e:  # noqa
                 err.append(e)
 
